@@ -118,6 +118,48 @@ func apiScenarios() []apiScenario {
 			expect(r2, "i32")
 			b.NewRet(b.NewAdd(r1, r2))
 		}},
+		{"two-names-one-underlying-type", func(m *ir.Module, expect func(value.Value, string)) {
+			// several type definitions whose underlying types are structurally equal (non-struct types compare by structure): each must be listed
+			// (in the order the parser lists them: natural sort of the names)
+			meters, seconds := types.NewInt(32), types.NewInt(32)
+			pa, pb := types.NewPointer(types.I8), types.NewPointer(types.I8)
+			va, vb := types.NewVector(2, types.Float), types.NewVector(2, types.Float)
+			m.NewTypeDef("meters", meters)
+			m.NewTypeDef("pa", pa)
+			m.NewTypeDef("pb", pb)
+			m.NewTypeDef("seconds", seconds)
+			m.NewTypeDef("va", va)
+			m.NewTypeDef("vb", vb)
+			m.NewGlobalDef("m", constant.NewInt(meters, 1))
+			m.NewGlobalDef("s", constant.NewInt(seconds, 2))
+			f := m.NewFunc("f", seconds, ir.NewParam("a", meters), ir.NewParam("p", pb), ir.NewParam("v", vb), ir.NewParam("q", pa), ir.NewParam("w", va))
+			b := f.NewBlock("entry")
+			r := b.NewAdd(f.Params[0], constant.NewInt(meters, 3))
+			expect(r, "%meters")
+			b.NewRet(b.NewBitCast(r, seconds))
+		}},
+		{"shuffle-mask-lengths", func(m *ir.Module, expect func(value.Value, string)) {
+			// the result of a shufflevector has the length of its MASK, however it compares with the length of the inputs (1, 2, 8 from 2)
+			v2 := types.NewVector(2, types.I32)
+			f := m.NewFunc("f", types.NewVector(8, types.I32), ir.NewParam("a", v2), ir.NewParam("b", v2))
+			b := f.NewBlock("entry")
+			mask := func(n int) constant.Constant {
+				es := make([]constant.Constant, n)
+				for i := range es {
+					es[i] = constant.NewInt(types.I32, int64(i%4))
+				}
+				return constant.NewVector(types.NewVector(uint64(n), types.I32), es...)
+			}
+			s1 := b.NewShuffleVector(f.Params[0], f.Params[1], mask(1))
+			expect(s1, "<1 x i32>")
+			s2 := b.NewShuffleVector(f.Params[0], f.Params[1], mask(2))
+			expect(s2, "<2 x i32>")
+			s8 := b.NewShuffleVector(f.Params[0], f.Params[1], mask(8))
+			expect(s8, "<8 x i32>")
+			b.NewExtractElement(s1, constant.NewInt(types.I32, 0))
+			b.NewAdd(s2, s2)
+			b.NewRet(s8)
+		}},
 		{"named-vector-compare", func(m *ir.Module, expect func(value.Value, string)) {
 			v := types.NewVector(4, types.I32)
 			m.NewTypeDef("v", v)
